@@ -41,6 +41,7 @@ def make_case(rng, i):
         c10.assign_values(rng, spec)     # falsy / typed state values (0, '', enum members, tuples) travel with the copy
     # listeners that are value objects (compare equal to each other; possibly unhashable)
     spec["eq_listeners"] = rng.choice([False, False, False, True, "unhashable"])
+    spec["falsy_listeners"] = rng.choice([None, None, None, None, "len", "bool"])
     listeners = [p for p in spec["providers"] if p not in ("sm", "model")]
     late = [l for l in listeners if rng.random() < 0.3]
     # late listeners must keep the engine choice stable (W7 is C12's): make them sync on sync machines
